@@ -305,7 +305,7 @@ func isBoolean(t types.Type) bool {
 }
 func isSeq(t types.Type) bool {
 	a, ok := t.(*types.Array)
-	return ok && a.Len() < 0
+	return ok && a.Len() == -1
 }
 
 func structOf(t types.Type) *types.Struct {
@@ -317,6 +317,9 @@ func structOf(t types.Type) *types.Struct {
 func (vc *VC) sortOf(t types.Type) Sort {
 	if isSeq(t) {
 		return ArrSort(vc.sortOf(t.(*types.Array).Elem()))
+	}
+	if a, ok := t.(*types.Array); ok && a.Len() == -2 {
+		return HeapSort(vc.sortOf(a.Elem()))
 	}
 	switch u := t.Underlying().(type) {
 	case *types.Basic:
@@ -415,12 +418,37 @@ func (vc *VC) heap(st *State, key string, sort Sort) Term {
 }
 
 func (vc *VC) setHeap(st *State, key string, h Term) {
+	prev, hasPrev := st.heaps[key]
+	if !hasPrev {
+		prev, hasPrev = vc.heaps0[key]
+	}
 	if len(h.S) > 40 {
 		n := vc.fresh("H!"+key, h.Sort)
 		vc.assumeGlobal(Eq(n, h))
 		h = n
 	}
 	st.heaps[key] = h
+	if hasPrev {
+		vc.linkHeaps(key, h, prev)
+	}
+}
+
+// linkHeaps emits the term-introduction fact: whenever a read rd(newH, s, i) occurs, the read
+// of the same cell in the predecessor heap is made available to the solver (a tautology given
+// rd's definition; it lets quantified facts stated over the older heap be instantiated).
+func (vc *VC) linkHeaps(key string, newH, prev Term) {
+	if !isHeapSort(newH.Sort) || newH.S == prev.S || strings.HasPrefix(newH.S, "(") {
+		return
+	}
+	inner := Sort(string(newH.Sort)[len("(Array Int (Array Int ") : len(newH.Sort)-2])
+	fn := "rd!" + smtName(key)
+	if !vc.declSet[fn] {
+		// make sure rd is declared
+		vc.rd(key, newH, Term{"(mk-slice 0 0 0 0)", SSlice}, IntLit(0))
+	}
+	ss, ii := Term{"s?", SSlice}, Term{"i?", SInt}
+	vc.assumeGlobal(Forall([]Term{ss, ii}, [][]Term{{App(inner, fn, newH, ss, ii)}},
+		Eq(App(inner, fn, prev, ss, ii), Select(Select(prev, SBase(ss)), Add(SOff(ss), ii)))))
 }
 
 // heapInvariant asserts the typing invariant of a heap: slices stored in it are
